@@ -29,7 +29,16 @@ def configs(ch):
                     pl = rng.choice(plen + [rng.randrange(21)])
                     user = "".join(rng.choice("abcdefghijklmnopqrstuvwxyzADMIN0123456789_-") for _ in range(ul))
                     pw = bytes(rng.randrange(256) for _ in range(pl))
-                    out.append({"suite": su, "kg": bytes(rng.randrange(256) for _ in range(20)) if kg else b"", "lookup": lookup,
+                    kgv = b""
+                    if kg:
+                        # binary keys: zero bytes first / inside / last, all ones, printable, random
+                        kgv = rng.choice([b"\x00" + bytes(rng.randrange(1, 256) for _ in range(19)),
+                                          bytes(rng.randrange(1, 256) for _ in range(7)) + b"\x00" + bytes(rng.randrange(1, 256) for _ in range(12)),
+                                          bytes(rng.randrange(1, 256) for _ in range(19)) + b"\x00", b"\xff" * 20,
+                                          b"0123456789abcdefghij", bytes(rng.randrange(256) for _ in range(20))])
+                    if pl and rng.randrange(3) == 0:
+                        pw = rng.choice([b"\x00" + pw[1:], pw[:-1] + b"\x00", pw[:len(pw) // 2] + b"\x00" + pw[len(pw) // 2 + 1:]])
+                    out.append({"suite": su, "kg": kgv, "lookup": lookup,
                                 "priv": priv, "user": user, "pw": pw, "seed": rng.randrange(1 << 30),
                                 "guid": bytes(rng.randrange(256) for _ in range(16))})
     return out
